@@ -51,7 +51,7 @@ func clamp(x int) int {
 }
 
 // GenRandom writes seeded point sets on the lattice 0..100: uniform,
-// clustered, thin bands and near-collinear convex hulls, at 3..maxn points,
+// clustered, thin bands, very flat sets (aspect up to 100:1) and near-collinear convex hulls, at 3..maxn points,
 // each as the identity or as a scaled/offset exact copy.
 func GenRandom(out string, seed int64, n, maxn int) error {
 	fo, err := os.Create(out)
@@ -63,7 +63,7 @@ func GenRandom(out string, seed int64, n, maxn int) error {
 	defer w.Flush()
 	enc := json.NewEncoder(w)
 	r := rand.New(rand.NewSource(seed))
-	dists := []string{"uniform", "cluster", "band", "arc", "diagonal", "small"}
+	dists := []string{"uniform", "cluster", "band", "arc", "diagonal", "small", "flat"}
 	sizes := []int{3, 4, 5, 6, 8, 10, 14, 20, maxn}
 	for i := 0; i < n; i++ {
 		dist := dists[r.Intn(len(dists))]
@@ -77,6 +77,9 @@ func GenRandom(out string, seed int64, n, maxn int) error {
 			centers = append(centers, []int{10 + r.Intn(81), 10 + r.Intn(81)})
 		}
 		band := r.Intn(95)
+		thin := 1 + r.Intn(2) // "flat": 1 or 2 lattice units across, 30..100 along: aspect ratios 15:1 .. 100:1
+		long := 30 + r.Intn(71)
+		along := r.Intn(101 - long)
 		slope := 1 + r.Intn(3)
 		draw := func() []int {
 			switch dist {
@@ -95,6 +98,15 @@ func GenRandom(out string, seed int64, n, maxn int) error {
 			case "diagonal":
 				x := r.Intn(101)
 				return []int{x, clamp(x/slope + r.Intn(5))}
+			case "flat": // very flat (or tall) sets, left/bottom end included: at most two points per lattice row
+				u := along + r.Intn(long+1)
+				if r.Intn(4) == 0 {
+					u = along + r.Intn(1+long/10)
+				}
+				if slope != 2 {
+					return []int{u, band + r.Intn(thin+1)}
+				}
+				return []int{band + r.Intn(thin+1), u}
 			case "small":
 				return []int{r.Intn(8), r.Intn(8)}
 			}
